@@ -124,29 +124,28 @@ def nsAt (t : Tabs) (st : SM.St) (q : Path) : Ns := fun x =>
   else if (st.mem .refs q x).isSome then some (.ref (t.rid q x))
   else none
 
+/-- the member entry a cells identity stands for: space, name, entry -/
+def cellInfo (t : Tabs) (st : SM.St) (c : CellId) : Option (Path × String × SM.Member) :=
+  match t.cellOf c with
+  | some (q, x) => (st.mem .cells q x).map (fun m => (q, x, m))
+  | none => none
+
 def envOf (P : Params) (t : Tabs) (st : SM.St) : Env where
   formula := fun n =>
-    match t.cellOf n.1 with
-    | some (q, x) =>
-      match st.mem .cells q x with
-      | some m => resolve (nsAt t st q) (P.srcOf m.payload n.2)
-      | none => .raise errDead
+    match cellInfo t st n.1 with
+    | some (q, _, m) => resolve (nsAt t st q) (P.srcOf m.payload n.2)
     | none => .raise errDead
   cached := fun c =>
-    match t.cellOf c with
-    | some (q, x) => match st.mem .cells q x with
-      | some m => P.flagOf m.payload
-      | none => false
+    match cellInfo t st c with
+    | some (_, _, m) => P.flagOf m.payload
     | none => false
   allowNone := fun c =>
-    match t.cellOf c with
-    | some (q, x) => match st.mem .cells q x with
-      | some m => P.anOf m.payload
-      | none => false
+    match cellInfo t st c with
+    | some (_, _, m) => P.anOf m.payload
     | none => false
   refs := fun r =>
     match t.refOf r with
-    | some (q, x) => (st.mem .refs q x).map (fun m => P.valOf m.payload)
+    | some (q, x) => if t.rid q x == r then (st.mem .refs q x).map (fun m => P.valOf m.payload) else none
     | none => none
   maxdepth := P.maxdepth
   observers := fun r =>
@@ -154,8 +153,8 @@ def envOf (P : Params) (t : Tabs) (st : SM.St) : Env where
     | some (q, _) => cellsOf t st q
     | none => []
   alive := fun c =>
-    match t.cellOf c with
-    | some (q, x) => (st.mem .cells q x).isSome && t.cid q x == c
+    match cellInfo t st c with
+    | some (q, x, _) => t.cid q x == c
     | none => false
   siblings := fun c =>
     match t.cellOf c with
